@@ -95,7 +95,8 @@ def write_evidence(pid, tier, seed, rep: Report, wall, nviol):
         "violations": nviol,
     }
     EVID.mkdir(exist_ok=True)
-    (EVID / f"{pid}.json").write_text(json.dumps(ev, indent=1, default=str) + "\n")
+    suffix = os.environ.get("VERIF_EVID_SUFFIX", "")       # seeded-mutant runs must not clobber real evidence
+    (EVID / f"{pid}{suffix}.json").write_text(json.dumps(ev, indent=1, default=str) + "\n")
 
 
 def main(argv=None):
